@@ -224,7 +224,8 @@ def veq(a, b):
     if isinstance(a, S.Term):
         return S.Eq(a, b)
     if isinstance(a, tuple):
-        assert len(a) == len(b), (a, b)
+        if not isinstance(b, tuple) or len(a) != len(b):
+            return S.FALSE
         return S.And([veq(x, y) for x, y in zip(a, b)])
     if isinstance(a, EnumV):
         conj = [S.Eq(a.tag, b.tag)]
